@@ -101,8 +101,9 @@ def run(ctx):
                           {"kind": "c17-writer", "case": c, "stderr": ff[0]["stderr"][-1500:] if ff else ""})
         else:
             wrecs[c["id"]] = rr[c["id"]]
-    if len(missing) > 6 and not ctx.violations:
-        raise vlib.MachineryFault("%d writer cases produced no record" % len(missing))
+    # many cases without a record: usually one defect (a call that never returns ends its process after the watchdog, and a
+    # shard full of them runs out of time).  The records that exist are judged first - a hung call is among them.
+    many_missing = len(missing) if len(missing) > 6 else 0
     wcases = [c for c in wcases if c["id"] in wrecs]
     ctx.evaluations += len(wrecs)
     ctx.distinct += len(wcases)
@@ -128,6 +129,8 @@ def run(ctx):
             key = "C17:writer:conc=%s:frame:%s:status=%s:same=%s:clean=%s" % ("1" if c["opts"]["conc"] == 1 else ">1", "-".join(ops),
                                                                            rec.get("status"), rec.get("same"), rec.get("clean"))
         confirm_writer(ctx, b, d, c, key)
+    if many_missing and not ctx.violations:
+        raise vlib.MachineryFault("%d writer cases produced no record" % many_missing)
     ctx.sample({"writer_sequence": wcases[len(wcases) // 2]["calls"], "events": fl.writer_events(wrecs[wcases[len(wcases) // 2]["id"]])[:5]})
 
     # ---- Reader
